@@ -890,7 +890,14 @@ func (e *Engine) Verify() *Fail {
 		}
 	}
 	if e.CheckSnaps {
-		if f := e.verifySnapshots(append([]string{"C06"}, extra...)); f != nil {
+		sp := append([]string{"C06"}, extra...)
+		if e.Labels["remove:ok"] > 0 && after != "remove" && after != "markrm" && after != "rmdirect" {
+			// a deletion happened earlier in this history: what it left behind (block map,
+			// the index below which nothing is reclaimed) must not let a later operation
+			// change a retained user snapshot either
+			sp = append(sp, "C11")
+		}
+		if f := e.verifySnapshots(sp); f != nil {
 			return f
 		}
 	}
